@@ -17,6 +17,8 @@ ASSUMPTIONS = [
     'pointer arithmetic on null with offset 0 and null - null are defined (C++), CBMC pointer checks for them are bypassed through L0_PADD / L0_PDIFF',
     'bounded stand-ins only: concrete L0 (ghost/l0c.h) is an executable reading of the same std:: semantics; inside FlatSet stand-ins the vector operations are replaced by executable specifications (harness/bounded_vec_stubs.c) that restate the contracts proved in the op.* units -- the restatement itself is not machine-checked',
     'static.traits (C14 converse): trait values are computed by g++ 12 from the real headers for 60 instantiations (three element kinds x four comparators x two underlying vectors / two large containers); other instantiations are not covered',
+    'static.shared_state (C20, supporting static fact, not a contract): clang 14 parses every header of include/amc under C++11 / C++17 / C++20 (text AST, uninstantiated template patterns included); the unit asserts that no declaration with static storage duration is writable and that no data member is mutable. Writes through const_cast or through pointers held by the object are not seen by it (they are frame obligations of the const members under contract); state inside the standard library is trusted',
+    'ghost/ext_mem.h (two C15 units): std::uninitialized_copy on std::move_iterator is assumed to be std::uninitialized_move',
 ]
 PROP_ASSUMPTIONS = {}
 BOUNDED = {}
@@ -32,9 +34,9 @@ NOT_UNDER_CONTRACT = {
     'C03': _NUC_FS, 'C12': ['emplace_hint / insert(hint, node) for the 32-bit FlatSet run in the thorough tier only'], 'C19': _NUC_FS[:1],
     'C04': _NUC_SS, 'C11': _NUC_SS[:1] + ['walking begin()..end() visits every element exactly once: stated per call (begin/end/erase/find results), not as a whole-traversal contract'],
     'C14': ['forward direction: relocation lemma on the three vector bases (the sets inherit it through their parts); converse direction: 60 instantiations of the static.traits unit'],
-    'C15': ['iterator categories other than pointers (forward / bidirectional / move_iterator sources); uninitialized_copy / uninitialized_move / uninitialized_relocate / uninitialized_value_construct / uninitialized_default_construct over [first,last) (lowered, reached through the _n forms only); array overloads of construct_at / destroy_at'],
+    'C15': ['iterator categories other than pointers (forward / bidirectional / move_iterator sources); uninitialized_value_construct / uninitialized_default_construct over [first,last) (lowered; the _n forms are under contract); the [first,last) and public _n forms of copy / move / relocate are under contract for the non trivially relocatable category only; array overloads of construct_at / destroy_at'],
     'C16': ['-O0 vs -O2 and pedantic mode are outside what a source-level contract can see; configurations: C++11, C++14 (assertions on, extras off), C++17 (NDEBUG, extras on), C++20; non-pointer iterator categories not instantiated'],
-    'C18': _NUC_VEC[1:], 'C20': ['const members that are not lowered (reverse iterators, comparison operators of SmallSet, heterogeneous lookups)'],
+    'C18': _NUC_VEC[1:], 'C20': ['const members that are not lowered (reverse iterators, comparison operators of SmallSet, heterogeneous lookups): covered only by the static.shared_state unit (no writable static storage, no mutable member), not by a frame obligation'],
 }
 LOWERING_DROPS = [
     'templates (finite instantiation matrix; inline capacity N stays symbolic in the base classes)',
@@ -221,6 +223,9 @@ def units():
     # ---- C14, converse direction: no container claims the trait when one of its parts is not relocatable -- type-level facts evaluated by the
     #      real compiler on the real headers (harness/static_traits.cpp), one obligation per instantiation
     add('static.traits', 'harness', ['C14'], 1, svb('ElemNR', 'u8'), 'u8', 'ElemNR', throws_reachable=False, static_facts='harness/static_traits.cpp')
+    # ---- C20, supporting static fact: the headers declare no writable static storage and no mutable member (read off clang's AST of the
+    #      real headers, uninstantiated template patterns included); covers the const members that are not lowered
+    add('static.shared_state', 'harness', ['C20'], 1, svb('ElemNR', 'u8'), 'u8', 'ElemNR', throws_reachable=False, static_facts='harness/static_shared_state.py')
     # ---- swap2 between flavours (C13): ordered pairs, same 8-bit size type in the quick tier, mixed 8/16-bit in the thorough tier
     FL3 = {'small': (1, 'SmallVectorBase_E_A_%s', 'VectorImpl_E_A_%s_t_Dyn'), 'std': (2, 'StdVectorBase_E_A_%s', 'VectorImpl_E_A_%s_f_Dyn'),
            'static': (3, 'StaticVectorBase_E_%s', 'VectorImpl_E_X_%s_t_Exc')}
